@@ -43,6 +43,7 @@ class GB:
         self.domains = {"": opset}
         self.n = 0
         self.feeds = []  # (name, np dtype, concrete shape, kind, extra)
+        self.value_info = []
         self.const_style = const_style or draw(st.sampled_from(["constant", "initializer"]))
 
     def fresh(self, base="v"):
@@ -77,11 +78,15 @@ class GB:
         self.nodes.append(oh.make_node(op_type, [("" if i is None else i) for i in ins], outs, domain=domain, **attrs))
         return outs[0] if nout == 1 else outs
 
+    def hint(self, name, dt, sym_shape):
+        """value_info for an interior value (contrib ops have no shape inference; the repository's GQA test adds the same hints)."""
+        self.value_info.append(oh.make_tensor_value_info(name, tp(dt), list(sym_shape)))
+
     def out(self, name, dt, sym_shape):
         self.outputs.append(oh.make_tensor_value_info(name, tp(dt), list(sym_shape)))
 
     def model(self):
-        g = oh.make_graph(self.nodes, "fusion_host", self.inputs, self.outputs, initializer=self.inits)
+        g = oh.make_graph(self.nodes, "fusion_host", self.inputs, self.outputs, initializer=self.inits, value_info=self.value_info)
         m = oh.make_model(g, opset_imports=[oh.make_opsetid(d, v) for d, v in self.domains.items()], ir_version=10,
                           producer_name="verif-fusionhosts")
         return m
@@ -757,6 +762,108 @@ def mha(draw):
     return Host("mha", g, P, nm)
 
 
+
+# ----------------------------------------------------------------------------- group-query attention (Phi/Gemma style source)
+@st.composite
+def gqa(draw):
+    """Modelled on ort_fusions/gqa_test.py: q/k/v BSD -> heads, com.microsoft.RotaryEmbedding on q and k, optional past concat,
+    expansion of the shared kv heads, additive mask, attention, back to BSD.  Near-misses replace the causal mask."""
+    dt = draw(st.sampled_from([F32, F32, F16]))
+    g = GB(draw, 18, const_style="constant")
+    B = draw(st.sampled_from([1, 1, 2]))
+    S = draw(st.sampled_from([1, 3, 8]))
+    Hkv = draw(st.sampled_from([1, 2]))
+    G = draw(st.sampled_from([1, 2, 4]))
+    H = Hkv * G
+    Dh = draw(st.sampled_from([4, 8, 16, 16, 16, 32]))
+    Pl = draw(st.sampled_from([0, 0, 2, 5]))
+    with_past = Pl > 0 or draw(st.booleans())
+    if not with_past:
+        Pl = 0
+    T = S + Pl
+    M = T + draw(st.sampled_from([0, 3]))
+    D, Dkv = H * Dh, Hkv * Dh
+    nm = draw(st.sampled_from([None] * 5 + ["mask_input", "mask_noncausal_const", "mask_computed", "no_mask_plus1"]))
+    sym = draw(st.sampled_from(["sym", "static"]))
+    Bs, Ss, Ps, Ts = ("B", "S", "P", "T") if sym == "sym" else (B, S, Pl, T)
+    P = {"dtype": dt.name, "B": B, "S": S, "H": H, "Hkv": Hkv, "Dh": Dh, "past": Pl, "with_past": with_past, "max_seqlen": M, "sym": sym,
+         "near_miss": nm, "mask_soft": True, "scale_op": draw(st.sampled_from(["Div", "Mul"]))}
+    q = g.inp("query", dt, [Bs, Ss, D], [B, S, D], kind="unit")
+    k = g.inp("key", dt, [Bs, Ss, Dkv], [B, S, Dkv], kind="unit")
+    v = g.inp("value", dt, [Bs, Ss, Dkv], [B, S, Dkv], kind="unit")
+    pk = g.inp("past_key", dt, [Bs, Hkv, Ps, Dh], [B, Hkv, Pl, Dh], kind="unit")
+    pv = g.inp("past_value", dt, [Bs, Hkv, Ps, Dh], [B, Hkv, Pl, Dh], kind="unit")
+    cos = g.inp("cos", dt, ["M", Dh // 2], [M, Dh // 2], kind="unit")
+    sin = g.inp("sin", dt, ["M", Dh // 2], [M, Dh // 2], kind="unit")
+    Bv = g.op("Shape", q, start=0, end=1)
+    Sv = g.op("Shape", q, start=1, end=2)
+    Pv = g.op("Shape", pk, start=2, end=3)
+    Tv = g.op("Add", Pv, Sv)
+    m1, dh, one = g.i64([-1]), g.i64([Dh]), g.i64([1])
+    shape_BSxDh = g.op("Concat", Bv, Sv, m1, dh, axis=0)
+    shape_BSD = g.op("Concat", Bv, Sv, m1, axis=0)
+    shape_BHkvGTDh = g.op("Concat", Bv, g.i64([Hkv]), g.i64([G]), Tv, dh, axis=0)
+    shape_BHTDh = g.op("Concat", Bv, g.i64([H]), Tv, dh, axis=0)
+    q4 = g.op("Reshape", q, shape_BSxDh)
+    g.hint(q4, dt, [Bs, S, H, Dh])
+    qh = g.op("Transpose", q4, perm=[0, 2, 1, 3])
+    k4 = g.op("Reshape", k, shape_BSxDh)
+    g.hint(k4, dt, [Bs, S, Hkv, Dh])
+    kh = g.op("Transpose", k4, perm=[0, 2, 1, 3])
+    vh = g.op("Transpose", g.op("Reshape", v, shape_BSxDh), perm=[0, 2, 1, 3])
+    P0, T0, S0 = g.op("Squeeze", Pv), g.op("Squeeze", Tv), g.op("Squeeze", Sv)
+    pos = g.op("Unsqueeze", g.op("Range", P0, T0, g.const(np.array(1, dtype=np.int64))), g.i64([0]))
+    if B > 1:
+        pos = g.op("Expand", pos, g.op("Concat", Bv, one, axis=0))
+    q_rope = g.op("RotaryEmbedding", qh, pos, cos, sin, domain="com.microsoft")
+    k_rope = g.op("RotaryEmbedding", kh, pos, cos, sin, domain="com.microsoft")
+    g.hint(q_rope, dt, [Bs, H, S, Dh])
+    g.hint(k_rope, dt, [Bs, Hkv, S, Dh])
+    if with_past:
+        k_seq = g.op("Concat", pk, k_rope, axis=-2)
+        v_seq = g.op("Concat", pv, vh, axis=-2)
+    else:
+        k_seq, v_seq = k_rope, vh
+    kx = g.op("Reshape", g.op("Expand", g.op("Unsqueeze", k_seq, g.i64([2])), shape_BHkvGTDh), shape_BHTDh)
+    vx = g.op("Reshape", g.op("Expand", g.op("Unsqueeze", v_seq, g.i64([2])), shape_BHkvGTDh), shape_BHTDh)
+    g.hint(kx, dt, [Bs, H, T, Dh])
+    g.hint(vx, dt, [Bs, H, T, Dh])
+    # mask
+    if nm == "mask_input":
+        mask = g.inp("mask", dt, [Bs, 1, Ss, Ts], [B, 1, S, T], kind="mask", soft=True)
+    elif nm == "mask_computed":  # an arbitrary (non-causal) additive mask that is the output of a node
+        mask = g.op("Mul", g.inp("mask", dt, [Bs, 1, Ss, Ts], [B, 1, S, T], kind="mask", soft=True), g.scalar(2.0, dt))
+    elif nm == "mask_noncausal_const":
+        rs = np.random.default_rng(draw(st.integers(0, 1000)))
+        mask = g.const(rs.standard_normal((1, 1, S, T)).astype(dt))
+    else:
+        minv = g.const(np.array([np.finfo(dt).min], dtype=dt))
+        plus = 0 if nm == "no_mask_plus1" else 1
+        Tp0 = g.op("Add", T0, g.const(np.array(plus, dtype=np.int64)))
+        Tp = g.op("Reshape", Tp0, m1)
+        cur = g.op("Range", P0, T0, g.const(np.array(1, dtype=np.int64)))
+        all_min = g.op("Expand", minv, g.op("Concat", Sv, Tp, axis=0))
+        row = g.op("Range", g.const(np.array(0, dtype=np.int64)), Tp0, g.const(np.array(1, dtype=np.int64)))
+        col = g.op("Reshape", cur, g.i64([-1, 1]))
+        fm = g.op("Mul", all_min, g.op("Cast", g.op("Greater", row, col), to=tp(dt)))
+        m4 = g.op("Expand", g.op("Unsqueeze", fm, g.i64([0, 1])), g.op("Concat", Bv, one, one, one, axis=0))
+        mask = g.op("Slice", m4, g.i64([0]), g.op("Reshape", T0, m1), g.i64([3]), g.i64([1]))
+    kt = g.op("Transpose", kx, perm=[0, 1, 3, 2])
+    g.hint(kt, dt, [Bs, H, Dh, T])
+    f = math.sqrt(math.sqrt(Dh))
+    if P["scale_op"] == "Div":
+        sq, sk = g.op("Div", q_rope, g.scalar(f, dt)), g.op("Div", kt, g.scalar(f, dt))
+    else:
+        sq, sk = g.op("Mul", q_rope, g.scalar(1.0 / f, dt)), g.op("Mul", kt, g.scalar(1.0 / f, dt))
+    w = g.op("Softmax", g.op("Add", g.op("MatMul", sq, sk), mask), axis=-1)
+    att = g.op("Transpose", g.op("MatMul", w, vx), perm=[0, 2, 1, 3])
+    y = g.op("Reshape", att, shape_BSD)
+    g.out(y, dt, [Bs, Ss, D])
+    g.out(k_seq, dt, [Bs, Hkv, Ts, Dh])
+    g.out(v_seq, dt, [Bs, Hkv, Ts, Dh])
+    return Host("gqa", g, P, nm)
+
+
 # ----------------------------------------------------------------------------- FusedMatMul rule set
 @st.composite
 def fused_matmul(draw):
@@ -892,6 +999,7 @@ FAMILIES = {
     "rotary_embedding": rotary,
     "sdpa": sdpa,
     "mha": mha,
+    "gqa": gqa,
     "fused_matmul": fused_matmul,
     "softmax": softmax_upcast,
     "instance_to_group_normalization": instance_to_group_norm,
